@@ -33,7 +33,8 @@ Record variant := {
   d24_close_resets_backlog : bool; (* acceptor::close(ec) resets the connections still waiting to be accepted *)
   d23_single_bind : bool;      (* bind() on a socket that is already bound fails with invalid_argument *)
   d5_resolver_dtor : bool;     (* ~basic_resolver completes the queued lookups with operation_aborted *)
-  d3_udp_wait_write : bool     (* udp async_wait(wait_write): the handler is moved into its completion; waits on the send timer *)
+  d3_udp_wait_write : bool;    (* udp async_wait(wait_write): the handler is moved into its completion; waits on the send timer *)
+  d33_writer_level : bool      (* an ACK wakes a blocked writer whenever the socket is writeable afterwards (not only on the edge) *)
 }.
 
 Definition pinned : variant :=
@@ -42,4 +43,4 @@ Definition pinned : variant :=
      d7_wakeup_fixed := false; d6_close_clears := false; d12_accept_visible_ep := false;
      d13_acceptor_close := false; d14_nat_syn_only := false; d18_accept_mss := false;
      d26_writer_wakeup := false; d11a_drop_guard := false; d27_synack_guard := false;
-     d8_drop_unaccounts := false; d9_drop_cb_kept := false; d25_resolver_order := false; d11b_drop_via_fwd := false; d28_proxy_one_lookup := false; d29_proxy_v6_authority := false; d30_socks_parse := false; d31_http_stall_reads := false; d32_socks_udp_header := false; d24_close_resets_backlog := false; d23_single_bind := false; d5_resolver_dtor := false; d3_udp_wait_write := false |}.
+     d8_drop_unaccounts := false; d9_drop_cb_kept := false; d25_resolver_order := false; d11b_drop_via_fwd := false; d28_proxy_one_lookup := false; d29_proxy_v6_authority := false; d30_socks_parse := false; d31_http_stall_reads := false; d32_socks_udp_header := false; d24_close_resets_backlog := false; d23_single_bind := false; d5_resolver_dtor := false; d3_udp_wait_write := false; d33_writer_level := false |}.
